@@ -484,6 +484,10 @@ class EscapeAnalysis:
                 add(call, "ValueError", f"{ext}() of a client-derived path raises ValueError for an embedded NUL (path from {sorted(t)})", "fact")
                 add(call, "OSError", f"{ext}() of a client-derived path raises plain OSError for a component longer than NAME_MAX (errno ENAMETOOLONG) or a symbolic-link loop (ELOOP): not a FileNotFoundError / NotADirectoryError (path from {sorted(t)})", "fact")
             return
+        if ext in ("codecs.lookup", "codecs.getdecoder", "codecs.getencoder", "codecs.getincrementaldecoder", "codecs.getincrementalencoder", "codecs.getreader", "codecs.getwriter") and call.args and T(call.args[0]):
+            self.fact_points += 1
+            add(call, "LookupError", f"{ext}(<client-chosen codec>): an unknown charset name raises LookupError (codec from {sorted(T(call.args[0]))})", "fact")
+            return
         if ext == "json.loads" and call.args and T(call.args[0]):
             self.fact_points += 1
             add(call, "json.JSONDecodeError", "json.loads() of client text", "fact")
@@ -560,6 +564,39 @@ class EscapeAnalysis:
             return isinstance(e, ast.Dict) and any(isinstance(k, ast.Constant) and k.value == key for k in e.keys)
         return all(total(x) for x in srcs)
 
+    def _is_text_name(self, fn: FuncInfo, name: ast.Name) -> bool:
+        """the local / parameter is a str (or bytes): annotated so, or only ever bound from string-producing operations"""
+        a = fn.node.args
+        for x in a.posonlyargs + a.args + a.kwonlyargs:
+            if x.arg == name.id:
+                return x.annotation is not None and ast.unparse(x.annotation) in ("str", "bytes")
+        from .common import _assigned_values
+        vals = _assigned_values(fn, name.id)
+        if not vals:
+            return False
+        # the same identifier is also a loop / comprehension / with / except target somewhere in the function (`for _ in ...`): which
+        # binding a given use refers to is not tracked - not known to be text
+        for n in ast.walk(fn.node):
+            tg = None
+            if isinstance(n, (ast.For, ast.AsyncFor, ast.comprehension)):
+                tg = n.target
+            elif isinstance(n, (ast.With, ast.AsyncWith)):
+                tg = ast.Tuple(elts=[i.optional_vars for i in n.items if i.optional_vars is not None], ctx=ast.Store())
+            if tg is not None and any(isinstance(x, ast.Name) and x.id == name.id for x in ast.walk(tg)):
+                return False
+
+        def texty(e: ast.expr) -> bool:
+            if isinstance(e, ast.Call) and isinstance(e.func, ast.Attribute) and e.func.attr in ("strip", "lstrip", "rstrip", "lower", "upper", "decode", "encode", "replace", "join", "format", "title"):
+                return True
+            if isinstance(e, ast.Call) and isinstance(e.func, ast.Attribute) and e.func.attr in ("partition", "rpartition"):
+                return True  # (a piece of the 3-tuple, bound by unpacking)
+            if isinstance(e, ast.Subscript) and isinstance(e.slice, ast.Slice):
+                return texty(e.value) or isinstance(e.value, ast.Name)
+            if isinstance(e, (ast.JoinedStr,)) or (isinstance(e, ast.Constant) and isinstance(e.value, (str, bytes))):
+                return True
+            return False
+        return all(texty(v) for v in vals)
+
     def _compiled_finders(self, fn: FuncInfo):
         """module-level names bound to `<compiled regex>.finditer` / `.match` ... (`_scan = re.compile(..).finditer`)"""
         out = set()
@@ -571,6 +608,33 @@ class EscapeAnalysis:
     def _facts_subscript(self, fn: FuncInfo, node: ast.Subscript, T, add) -> None:
         # dict-literal / module-constant dict indexed by a client-derived key
         base = node.value
+        # text[0] / text[-1] of client text that may be EMPTY (a header parameter `name=`): IndexError, unless a guard on its length /
+        # truthiness dominates the subscript
+        if isinstance(node.slice, ast.Constant) and isinstance(node.slice.value, int) and not isinstance(node.slice.value, bool) and isinstance(base, ast.Name) and isinstance(node.ctx, ast.Load) \
+                and T(base) and self._is_text_name(fn, base):
+            nm = base.id
+
+            def _guards(e: ast.AST) -> bool:
+                for x in ast.walk(e):
+                    if isinstance(x, ast.Call) and isinstance(x.func, ast.Name) and x.func.id == "len" and x.args and isinstance(x.args[0], ast.Name) and x.args[0].id == nm:
+                        return True
+                    if isinstance(x, ast.Call) and isinstance(x.func, ast.Attribute) and isinstance(x.func.value, ast.Name) and x.func.value.id == nm and x.func.attr in ("startswith", "endswith"):
+                        return True
+                return isinstance(e, ast.Name) and e.id == nm
+            guarded = any(_guards(g) for g, _pol in norm_guards(node, fn.node))
+            q, child = getattr(node, "_parent", None), node
+            while q is not None and not isinstance(q, ast.stmt):
+                if isinstance(q, ast.BoolOp) and isinstance(q.op, ast.And):
+                    for v_ in q.values:
+                        if v_ is child or any(v_ is a_ for a_ in ast.walk(child)):
+                            break
+                        if _guards(v_):
+                            guarded = True
+                child, q = q, getattr(q, "_parent", None)
+            if not guarded:
+                self.fact_points += 1
+                add(node, "IndexError", f"{nm}[{node.slice.value}] of client text that may be empty (e.g. a header parameter `name=`) raises IndexError (text from {sorted(T(base))})", "fact")
+            return
         # a string-keyed lookup in a mapping built from client text (e.g. parsed header parameters)
         if isinstance(node.slice, ast.Constant) and isinstance(node.slice.value, str) and isinstance(base, (ast.Name, ast.Attribute)) and T(base):
             root = base
